@@ -33,6 +33,7 @@ func main() {
 			"suffix range on an empty file: 416 or 200 with the empty body",
 			"numerals that do not fit a 63-bit integer are an implementation limit: 416, 200-whole or the clamped 206 are accepted",
 			"with AcceptByteRange off the Range header is ignored (200 whole file)",
+			"replaced files carry a modification time that differs from the old one (newer or older); a replacement with the identical mtime is indistinguishable for an mtime-validated compressed-file cache",
 		},
 		Exhaustive:  func(t string) bool { return true },
 		Procs:       8,
@@ -504,6 +505,89 @@ func work(w *mon.W) {
 			return map[string]interface{}{"engine": en.name, "requests": fmt.Sprintf("%+v", qs)}
 		}
 		runConn(w, c, wd, en, qs)
+	})
+	// replaced files: a file that was served compressed (a .hertz.gz sidecar exists next
+	// to it) is replaced by other content — with a newer, an equal or an *older*
+	// modification time (rollback with cp -p / rsync -a) — and requested through a new
+	// handler (cache miss): the gzip response must decode to the file as it is now
+	w.Cases("replaced", uint64(w.Pick(60, 1200)), func(c *mon.Case) {
+		r := c.R
+		dir, err := os.MkdirTemp("", "verif-c08r-")
+		if err != nil {
+			return
+		}
+		defer os.RemoveAll(dir)
+		fp := filepath.Join(dir, "page.txt")
+		v1 := bytes.Repeat([]byte(fmt.Sprintf("version-one-%d ", c.I)), 400+r.Intn(800))
+		v2 := bytes.Repeat([]byte(fmt.Sprintf("VERSION-TWO-%d ", c.I)), 300+r.Intn(900))
+		base := time.Unix(1700000000, 0)
+		os.WriteFile(fp, v1, 0o644)
+		os.Chtimes(fp, base, base)
+		mk := func() *route.Engine {
+			return rig.NewEngine(rig.Options(nil), func(e *route.Engine) {
+				e.StaticFS("/s", &app.FS{Root: dir, Compress: true, AcceptByteRange: r.Bool(), PathRewrite: app.NewPathSlashesStripper(1)})
+			})
+		}
+		get := func(e *route.Engine, gz bool) ([]byte, string) {
+			h := ""
+			if gz {
+				h = "Accept-Encoding: gzip\r\n"
+			}
+			sc := sconn.New([][]byte{[]byte("GET /s/page.txt HTTP/1.1\r\nHost: x\r\n" + h + "\r\n")}, sconn.EOF)
+			res := rig.Serve(e, sc, 4096, false, 20*time.Second)
+			if res.Panic != nil || res.Hang {
+				return nil, fmt.Sprintf("panic/hang: %v", res.Panic)
+			}
+			msgs, err := wire.ParseResponses(res.Out, []string{"GET"}, true)
+			if err != nil || len(msgs) != 1 || msgs[0].Status != 200 {
+				return nil, fmt.Sprintf("bad response: %v", err)
+			}
+			body := msgs[0].Body
+			if ce, _ := msgs[0].Get("Content-Encoding"); ce == "gzip" {
+				zr, err := gzip.NewReader(bytes.NewReader(body))
+				if err != nil {
+					return nil, "gzip: " + err.Error()
+				}
+				body, err = io.ReadAll(zr)
+				if err != nil {
+					return nil, "gzip: " + err.Error()
+				}
+				w.Count("gzip_responses", 1)
+			}
+			return body, ""
+		}
+		// (a replacement that keeps exactly the same mtime cannot be told apart by any
+		// mtime-validated cache and is not generated)
+		shift := []time.Duration{10 * time.Second, -10 * time.Second, -24 * time.Hour, time.Second}[r.Intn(4)]
+		c.Detail = func() interface{} {
+			return map[string]interface{}{"family": "replaced", "mtime_shift_of_new_content": shift.String(), "len_v1": len(v1), "len_v2": len(v2)}
+		}
+		e1 := mk()
+		if b, msg := get(e1, true); msg != "" || !bytes.Equal(b, v1) {
+			c.Violate("fs-response", "first gzip request: %s, body %d bytes want %d", msg, len(b), len(v1))
+			return
+		}
+		os.WriteFile(fp, v2, 0o644)
+		os.Chtimes(fp, base.Add(shift), base.Add(shift))
+		e2 := mk() // new handler: nothing cached in memory
+		for _, gz := range []bool{true, false, true} {
+			b, msg := get(e2, gz)
+			if msg != "" {
+				c.Violate("fs-response", "after replacing the file (mtime shift %v), gzip=%v: %s", shift, gz, msg)
+				return
+			}
+			if !bytes.Equal(b, v2) {
+				which := "neither version"
+				if bytes.Equal(b, v1) {
+					which = "the PREVIOUS content of the file"
+				}
+				c.Violate("fs-stale-content", "after replacing the file (new content carries an mtime shifted by %v) a request with gzip=%v returns %s (%d bytes), the file on disk has %d bytes", shift, gz, which, len(b), len(v2))
+				return
+			}
+		}
+		w.Count("replaced_file_cases", 1)
+		w.Count("responses_checked", 4)
+		w.Shape(mon.Hash64("replaced", shift.String(), len(v1), len(v2)))
 	})
 	// concurrent clients (race detector in the thorough build): reader refcounts, cache map
 	w.Cases("concurrent", uint64(w.Pick(40, 1500)), func(c *mon.Case) {
